@@ -48,6 +48,10 @@ type VerifSimClient struct {
 	// is re-established (or its context ends) instead of failing at once — what the real client does with its default
 	// retry policy (unlimited attempts with back-off while the context is alive).
 	RetryWhileLost bool
+	// LoseReply (opt-in): consulted after the server has executed a command sent with Do; true = the connection breaks
+	// before the reply arrives. As the real client's retry loop does, a command flagged retryable is then sent again on
+	// a fresh connection (the server executes it a second time) and any other command fails with ErrVerifReplyLost.
+	LoseReply func(argv []string) bool
 }
 
 type vsub struct {
@@ -59,6 +63,9 @@ type vsub struct {
 }
 
 var ErrVerifConnLost = errors.New("verif: simulated connection loss")
+
+// ErrVerifReplyLost: the command was executed by the server but its reply never arrived
+var ErrVerifReplyLost = errors.New("verif: simulated connection loss after the command was executed (reply lost)")
 
 // NewVerifSimClient creates a client session on srv honouring the tracking related options of opt.
 func NewVerifSimClient(srv *simredis.Server, opt ClientOption) *VerifSimClient {
@@ -290,6 +297,13 @@ func (c *VerifSimClient) Do(ctx context.Context, cmd Completed) (resp RedisResul
 		}
 	} else {
 		resp = c.raw(argv)
+		if c.LoseReply != nil && c.LoseReply(argv) {
+			if cmd.IsRetryable() {
+				resp = c.raw(argv)
+			} else {
+				resp = NewErrorResult(ErrVerifReplyLost)
+			}
+		}
 		if c.ReplyPoint && vsched.Active() {
 			vsched.Point("simclient.reply", nil)
 		}
